@@ -62,6 +62,7 @@ type Config struct {
 	TickBias int // 1 in TickBias choices prefers a tick when available (0 = uniform)
 	TickHold bool // no tick fires before the harness calls AllowTicks()
 	Stick    int  // strategy "sticky": probability (percent) of continuing with the same goroutine
+	Hold     []string // breakpoint: after a goroutine logged an event containing Hold[0], its next event containing Hold[1] parks it until nobody else can run (once)
 	Mem      bool // log plain memory accesses (M lines) and harness synchronisation (H lines)
 	NoTrace  bool
 	FailFast bool
@@ -80,6 +81,9 @@ type Result struct {
 }
 
 type Sched struct {
+	holdArmed map[int]bool
+	held      map[int]bool
+	holdDone  bool
 	last int
 	memKeep []unsafe.Pointer
 	ticksOn bool
@@ -214,6 +218,19 @@ func (s *Sched) enabledList() []*G {
 		}
 		if g.pend.enabled == nil || g.pend.enabled() {
 			en = append(en, g)
+		}
+	}
+	if len(s.held) > 0 {
+		var rest []*G
+		for _, g := range en {
+			if !s.held[g.id] {
+				rest = append(rest, g)
+			}
+		}
+		if len(rest) > 0 {
+			en = rest
+		} else {
+			s.held = nil // nobody else can run: the breakpoint is released
 		}
 	}
 	if len(en) == 0 && len(idle) > 0 && len(s.tickable()) == 0 {
@@ -511,7 +528,23 @@ func (s *Sched) log(site int, obj, op, arg, res string) {
 	if s.cur != nil {
 		gid = s.cur.id
 	}
-	s.trace = append(s.trace, "E "+strconv.Itoa(gid)+" "+esc(fn)+" "+esc(obj)+" "+esc(op)+" "+esc(arg)+" "+esc(res))
+	line := "E " + strconv.Itoa(gid) + " " + esc(fn) + " " + esc(obj) + " " + esc(op) + " " + esc(arg) + " " + esc(res)
+	s.trace = append(s.trace, line)
+	if len(s.cfg.Hold) == 2 && !s.holdDone && gid >= 0 {
+		if s.holdArmed[gid] && strings.Contains(line, s.cfg.Hold[1]) {
+			if s.held == nil {
+				s.held = map[int]bool{}
+			}
+			s.held[gid] = true
+			s.holdDone = true
+			s.trace = append(s.trace, "X "+strconv.Itoa(gid)+" hold breakpoint")
+		} else if strings.Contains(line, s.cfg.Hold[0]) {
+			if s.holdArmed == nil {
+				s.holdArmed = map[int]bool{}
+			}
+			s.holdArmed[gid] = true
+		}
+	}
 }
 
 func (s *Sched) logRaw(tag, kind, rest string) {
